@@ -23,6 +23,12 @@ func (r *SignatureProposalParticipantsListRequest) Validate() error {
 		return errors.New("{SigningThreshold} cannot be higher than {ParticipantsCount}")
 	}
 
+	for _, participant := range r.Participants {
+		if participant == nil {
+			return errors.New("{Participants} cannot contain empty entries")
+		}
+	}
+
 	uniqueUsernames := make(map[string]bool)
 	for _, participant := range r.Participants {
 		if _, ok := uniqueUsernames[participant.Username]; ok {
